@@ -14,6 +14,7 @@ type Profile struct {
 	EmptyTarget  bool // occasionally use the empty string as target (internal commit fails with a non-AlreadyExists error)
 	RestoreFails bool // reopen may fail some restore mounts (always together with AllowInvalidMountsOnRestart)
 	InjectAtMount bool // occasionally let "another caller" create a key equal to the target name while the backend Mount runs
+	PlantFaults   bool // occasionally plant a directory / file named like the next snapshot id before Prepare / View, then retry and Cleanup
 	CrashHistory bool // C09 profile: more creation/commit/removal, fewer read-only operations
 }
 
@@ -25,6 +26,8 @@ type Gen struct {
 	P    Profile
 	keyN int
 	valN int
+	// pending operations (the retry and the Cleanup that follow a planted fault)
+	pending []Op
 }
 
 func (g *Gen) pick(v []string) string {
@@ -46,6 +49,28 @@ func (g *Gen) val() string {
 
 // Next generates one operation. mounted lists the backend's live mountpoints.
 func (g *Gen) Next(m *Model, mounted []string) Op {
+	if len(g.pending) > 0 {
+		op := g.pending[0]
+		g.pending = g.pending[1:]
+		return op
+	}
+	op := g.next(m, mounted)
+	if g.P.PlantFaults && (op.Kind == "prepare" || op.Kind == "view") && op.Inject == "" && g.Rng.Chance(7, 100) {
+		op.Plant = g.Rng.PickS("dir", "dir", "file")
+		op.MountFail = op.MountFail && g.Rng.Bool()
+		retry := op
+		retry.Plant = ""
+		// the caller retries the very same call (once or twice), then a Cleanup pass runs
+		g.pending = append(g.pending, retry)
+		if g.Rng.Chance(1, 3) {
+			g.pending = append(g.pending, retry)
+		}
+		g.pending = append(g.pending, Op{Kind: "cleanup"})
+	}
+	return op
+}
+
+func (g *Gen) next(m *Model, mounted []string) Op {
 	r := g.Rng
 	committed := m.Names(func(_ string, s *Snap) bool { return s.Kind == Committed })
 	actives := m.Names(func(_ string, s *Snap) bool { return s.Kind == Active })
